@@ -35,7 +35,7 @@ C17_INV = ["DirtyExact", "FlatAgree"]
 BASE = dict(P=2, M=100000, MaxSegs=3, MaxLen=2, Bases="MC_Bases4", FLens="MC_FLens", Kinds="MC_KindsAll",
             MaxOps=2, MaxN=3, FileSize=2, Chunks="MC_Chunks", MaxAddr=6)
 MC = {
-    ("C04", "quick"): [("q_a", dict(BASE, MaxN=2, NoExport=1), "<=3 runs of length 0..2, 2 ops, all kinds"),
+    ("C04", "quick"): [("q_a", dict(BASE, MaxN=2, Chunks="MC_Chunks9", NoExport=1), "<=3 runs of length 0..2, 2 ops, all kinds, files never short per call"),
                        ("q_b", dict(BASE, MaxSegs=2, MaxOps=3, MaxN=2), "<=2 runs, 3 ops (split of split, op after split)")],
     ("C04", "thorough"): [("t_a", dict(BASE, MaxOps=3, MaxN=3, FLens="MC_FLens4"), "<=3 runs of length 0..2, 3 ops, counts 0..3"),
                           ("t_b", dict(BASE, MaxSegs=2, MaxLen=3, MaxOps=3, MaxN=4, FLens="MC_FLens4", MaxAddr=7, FileSize=3),
